@@ -252,7 +252,7 @@ func checkC13(c *Ctx, r *Report) {
 	r.Trusted = []string{"go/types, go/ssa (x/tools v0.29.0)", "net.UDPConn read/write honour the deadline last set", "backoff.WithContext stops retrying once the context is done", "context.WithTimeout never extends the parent's deadline"}
 
 	// (a) transport.Send
-	send := c.Method("internal/pkg/transport", "transport", "Send")
+	send := c.transportSend()
 	r.Rule("socket-deadlines", "each blocking socket call in transport.Send is preceded on every path by the matching deadline call with the ctx parameter's deadline, or by the no-deadline arm of ctx.Deadline()", 2)
 	if send == nil {
 		r.Lost("transport.Send")
